@@ -34,6 +34,17 @@ def models(tier):
     alpha1 = [("m", 0, "rh:1"), ("m", 0, "rh:2"), ("eof", 0), ("m", 0, "dpr"), ("accept",), ("m", 1, "cer_p0"), ("m", 1, "rh:1"), ("eof", 1),
               ("ans", 0), ("ans", 1), ("ans", 2), ("ans2", 0), ("ans2", 1), ("tick", 3)]
     out.append(monitors.ScenarioModel("one-peer-reconnecting", BASE, alpha1, MONS, max_socks=2, prelude=[("accept",), ("m", 0, "cer_p0")]))
+    # a request whose end-to-end identifier is 0 while the other connection has the same hop-by-hop id pending
+    alpha0 = [("m", 1, "rh:1"), ("m", 0, "rh0:1"), ("m", 1, "rh:2"), ("m", 0, "rh:2"), ("ans", 0), ("ans", 1), ("ans", 2), ("ans2", 0), ("ans2", 1), ("eof", 1)]
+    out.append(monitors.ScenarioModel("end-to-end-id-zero", BASE, alpha0, MONS, max_socks=2,
+                                      prelude=[("accept",), ("m", 0, "cer_p0"), ("accept",), ("m", 1, "cer_p1")]))
+    # the requester has a DWR outstanding when it sends its DPR; the late DWA must not make the connection routable again
+    import copy
+    wd = copy.deepcopy(BASE)
+    wd["node"].update({"idle_timeout": 2, "dwa_timeout": 30, "wakeup": 1})
+    alphaw = [("m", 0, "rh:1"), ("m", 0, "dpr"), ("m", 0, "dwa"), ("ans", 0), ("ans", 1), ("tick", 1), ("m", 0, "dwr")]
+    out.append(monitors.ScenarioModel("requester-awaiting-DWA", wd, alphaw, MONS, max_socks=1,
+                                      prelude=[("accept",), ("m", 0, "cer_p0"), ("tick", 3)]))
     # the same peer holds two connections; the one that carried the request is lost before the answer
     alpha2 = [("eof", 0), ("eof", 1), ("m", 0, "dpr"), ("m", 1, "rh:1"), ("m", 1, "rh:2"), ("ans", 0), ("ans", 1), ("ans", 2), ("ans2", 0), ("rst", 0)]
     out.append(monitors.ScenarioModel("one-peer-two-connections", BASE, alpha2, MONS, max_socks=2,
